@@ -41,6 +41,8 @@ func main() {
 		Prop: "C05",
 		Rule: "generated programs dominated by protected calls (pcall/xpcall, nested) whose bodies raise error() with values of every type and level 0/1/2, runtime faults (index/call/arith/compare/concat), assert, " +
 			"also from nested calls, metamethods and coroutines; after each the program keeps using the caller's locals, upvalues and tables; traces compared with the reference evaluator; " +
+			"mode history: one contained error repeated N times (N small or around the internal limits 200/256) along a chosen route to a chosen catcher, then probes of coroutines, nested resumes/pcalls/metamethods and handlers; " +
+			"Go-side families: handlers at every internal limit and entry depth, white-box counters after every contained error and black-box nesting gauges after long histories, exact values raised by Go functions; " +
 			"non-trivial = at least 5 emitted rows or an error outcome; distinct by Gallina term",
 		Modes: []luaprop.Mode{{Name: "errors", Features: f, Weight: 3},
 			{Name: "errors-autostack", Features: f, Weight: 1, Run: &luagen.RunOptions{MinimizeStack: true, CallStackSize: 64}},
@@ -55,6 +57,7 @@ func main() {
 		Extra: func(w *lib.Writer, tier string, seed uint64) {
 			faultEnumeration(w, tier, seed)
 			apiProtected(w, tier, seed)
+			referenceOnly(w)
 			wave5(w, tier, seed)
 		},
 		KF: func(uses map[string]int, src string) []string {
@@ -81,6 +84,12 @@ var corpus = []string{
 	`local co = coroutine.create(function() error("in co") end); emit(coroutine.resume(co)); emit(coroutine.status(co)); emit(pcall(coroutine.wrap(function() error({}) end)))`,
 	`emit(pcall(function() assert(false) end)); emit(pcall(function() assert(nil, "msg") end)); emit(pcall(assert, 1, 2, 3)); emit(select('#', pcall(function() assert(false) end)))`,
 	`local function thrower() error("x") end; for i = 1, 3 do local ok, e = pcall(thrower); emit(i, ok, e) end; local n = 0; while n < 3 do n = n + 1; pcall(error, n) end; emit(n)`,
+	// wave 5: the C-call depth after a protected call with a handler, seen through the only thing it decides
+	// inside the models: whether the coroutine may still yield (the handler-raises variant is in
+	// referenceOnly, history.go: VMX/Step.v does not follow 8afd4e6 yet, notes/VMX-todo.md item 4)
+	`local co = coroutine.wrap(function() emit(xpcall(function() error("a", 0) end, function(m) return m .. "!" end)); emit(pcall(error, {})); local r = coroutine.yield(1); return r + 1 end); emit(co()); emit(co(41))`,
+	// 250 contained errors leaving a coroutine through its wrap function, then ordinary coroutines (seed C05-10 class)
+	`local n = 0; for i = 1, 250 do local ok, e = pcall(coroutine.wrap(function() error({code = i}) end)); if not ok and e.code == i then n = n + 1 end end; emit(n); local co = coroutine.create(function(a) local b = coroutine.yield(a + 1); return b * 2 end); emit(coroutine.resume(co, 1)); emit(coroutine.resume(co, 21)); local g = coroutine.wrap(function() for i = 1, 3 do coroutine.yield(i) end end); emit(pcall(g))`,
 }
 
 // faultEnumeration: (a) host-call faults: for generated programs the k-th emit call raises, for every
